@@ -177,7 +177,7 @@ def scenarios(rng: random.Random, tier: str) -> list[str]:
         if tier != "quick" or rng.random() < 0.5:
             out.append(nodegen.CONFIGS["out"] + " | start ok,inp | " + " | ".join(evs) + " | adv 3")
     # every CER of the alphabet as the first message, on every configuration (0, 1, 3 applications; auth / acct roles)
-    for cfgn in ("noapp", "basic", "two", "rq"):
+    for cfgn in ("noapp", "basic", "two", "rq", "both"):
         for i in range(al):
             msg = alphabet(rng)[i]
             if msg.startswith("CE:128"):
